@@ -164,6 +164,25 @@ def check(an, rep, tier):
             else:
                 check_tt_returns(
                     rep, [r], lambda run: [Poly.sym('mnew')] * run.d)
+    # --- F-percore: with per-core points (2-D X) the basis callback is asked
+    # once per core (a basis matrix that is built for the first core and then
+    # re-used fits the other cores against the wrong points); counted in the
+    # abstract run, d is concrete
+    for r in runs:
+        if r.qualname != 'func.func_int_general':
+            continue
+        percore = r.variant.get('X') == 'f[d,nx]'
+        n_cb = len(r.I.cb_calls)
+        want = r.d if percore else 1
+        rep.add('F-percore', r.qualname, 'basis callback asked %d time(s) '
+                'for %s' % (n_cb, r.tag()),
+                'ok' if n_cb >= want else 'violation',
+                '' if n_cb >= want else 'with one row of points per core the '
+                'basis must be evaluated for every core (%d), it is evaluated '
+                '%d time(s): the later cores are fitted against the points of '
+                'the first one' % (want, n_cb),
+                line=prog.func(r.qualname).node.lineno,
+                file=prog.func(r.qualname).module.path)
     from ..poly import same as _same, definitely_differ as _dd
     for r in runs:
         q_ = r.qualname
@@ -319,4 +338,5 @@ def check(an, rep, tier):
     rep.floor('S-einsum|S-tensordot', 3, 'coefficient contractions')
     rep.floor('S-ret', 8, 'TT results')
     rep.floor('P-two-sided', 2, 'box tests')
+    rep.floor('F-percore', 4, 'per-core basis evaluation')
     rep.floor('P-domain', 3, 'rejections')
